@@ -79,8 +79,18 @@ def space():
     return SPACE
 
 
+_INIT = None
+
+
 def initial_states():
-    """name -> (model, object)"""
+    global _INIT
+    if _INIT is None:
+        _INIT = _initial_states()
+    return _INIT
+
+
+def _initial_states():
+    """name -> (model, factory of a fresh object)"""
     out = {}
     out["SMSimfile()"] = ({"type": "sm", "items": [], "charts": []}, lambda: X.SMSimfile())
     out["SMSimfile(string='')"] = ({"type": "sm", "items": [], "charts": []}, lambda: X.SMSimfile(string=""))
@@ -93,7 +103,8 @@ def initial_states():
             for ch in sf.charts:
                 ch.notes = ",".join(ch.notes.split(",")[:2]).strip()
             return sf
-        out["nekonabe.sm (notes shortened)"] = (H.model_from_object(neko()), neko)
+        pristine = neko()  # never serialized; every state's object starts from a deep copy of it
+        out["nekonabe.sm (notes shortened)"] = (H.model_from_object(pristine), lambda: copy.deepcopy(pristine))
     return out
 
 
@@ -172,7 +183,7 @@ def explore_shard(acc, shard):
     elif kind == "B":
         _, init_name, first_op, depth = shard
         model, mk = initial_states()[init_name]
-        H.bfs(acc, space(), "B edit histories", init_name, copy.deepcopy(model), mk(), OPS, depth, first_op, prop="C01")
+        H.bfs(acc, space(), "B edit histories", init_name, copy.deepcopy(model), mk, OPS, depth, first_op, prop="C01")
 
 
 def probe(p):
@@ -205,7 +216,7 @@ def explore(run):
     depth = 4 if run.thorough() else 3
     for name in initial_states():
         shards.append(("B", name, None, 0))
-        for i in range(len(OPS)):
+        for i in range(len(OPS) + 1):  # + the 'serialize' operation
             shards.append(("B", name, i, depth))
     k = run.seed % len(shards)
     shards = shards[k:] + shards[:k]
@@ -231,6 +242,7 @@ def explore(run):
     ]
     core.require(acc.c["roundtrips_checked"] > 1000, "too few round trips")
     core.require(acc.outcomes["excluded: dependency gap"] > 0, "no dependency gap seen (classifier inactive?)")
+    core.require(acc.outcomes["state reached after an earlier serialization"] > 0, "no history with an intermediate serialization")
     core.require(acc.outcomes["state with charts"] > 0, "no chart states")
     core.require(acc.outcomes["state with a key-only (None) property"] > 0, "no None property")
     return run.finish(
